@@ -195,8 +195,8 @@ PROPS["C14"] = {
         H(KHP, "c14::c14_announce_reply_%d_%d" % (a, b), "announce reply bytes == canonical bencode (sorted keys, 6/18-byte compact peers), returned length == bytes written", "%d v4 + %d v6 peers, counters < 1e5" % (a, b), ["AnnounceResponse::write_bytes"], cost=150)
         for (a, b) in ((0, 0), (2, 0), (0, 2), (1, 1))
     ] + [
-        H(KHP, "c14::c14_scrape_reply_%d" % n, "scrape reply bytes == canonical bencode, hashes ascending", "%d files" % n, ["ScrapeResponse::write_bytes"], cost=150)
-        for n in (0, 1)
+        H(KHP, "c14::c14_scrape_reply_0", "scrape reply bytes == canonical bencode", "0 files", ["ScrapeResponse::write_bytes"], cost=30),
+        H(KHP, "c14::c14_scrape_reply_1", "scrape reply bytes == canonical bencode (std BTreeMap under CBMC is expensive)", "1 file", ["ScrapeResponse::write_bytes"], tier="thorough", cost=600, mem_gb=40, timeout=3000),
     ] + [
         H(KHP, "c14::c14_counter_format", "decimal digits of a reply counter == reference formatter", "all counters < 100000", ["AnnounceResponse::write_bytes", "itoa::Buffer::format"], tier="thorough", cost=600, timeout=1800),
         H(KHP, "c14::c14_failure_reply", "failure reply bytes == canonical bencode", "one text", ["FailureResponse::write_bytes"]),
